@@ -104,6 +104,7 @@ func execLoess(a []Tok) string {
 			panic(fmt.Sprintf("LOESS closure is history dependent: f(%v) gave %v then %v", queries[i], vals[i], v))
 		}
 	}
+	concurrentSame("LOESS closure", f, queries, vals)
 	unmod := sameBits(xs, ox) && sameBits(ys, oy)
 	// order independence
 	perm := rand.Perm(len(xs))
